@@ -1,0 +1,8 @@
+// SPDX-License-Identifier: MIT OR Apache-2.0
+
+//! Verification hook for property C07 (stream cursors only move forward and only for their own
+//! topic). Compiled only with `--cfg p2panda_p2panda_verif`; re-exports the crate-private
+//! [`Acked`] so that an external harness can drive `Acked::ack` / `Acked::cursor` directly over a
+//! `SqliteStore`. Adds no behaviour.
+pub use crate::streams::AckedError;
+pub use crate::streams::VerifAcked as Acked;
